@@ -300,13 +300,88 @@ def _graph_chunk(chunk):
     return len(chunk), nt, fails
 
 
+KINDS = ['executable', 'custom_target', 'custom_target_index', 'jar', 'args_target', 'depends_target', 'args_custom_index']
+
+
+def _kinds_chunk(chunk):
+    """every kind of thing a test can run or depend on, each NOT built by default, as test() and as benchmark():
+    it must be reachable from meson-test-prereq / meson-benchmark-prereq"""
+    repo = os.environ.get('VERIF_REPO', '/repo')
+    fails, nt = [], 0
+    for kind, fn in chunk:
+        if kind == 'jar' and not shutil.which('javac'):
+            continue
+        d = tempfile.mkdtemp(prefix='c04kind')
+        try:
+            src, build = os.path.join(d, 'src'), os.path.join(d, 'b')
+            os.makedirs(src)
+            open(os.path.join(src, 'm.c'), 'w').write('int main(void) { return 0; }\n')
+            open(os.path.join(src, 'J.java'), 'w').write('class J { public static void main(String[] a) { } }\n')
+            langs = "'c', 'java'" if kind == 'jar' else "'c'"
+            txt = f"project('k', {langs})\npy = find_program('python3')\n"
+            ct = "custom_target('{0}', output: ['{0}.sh', '{0}.dat'], command: [py, '-c', 'pass', '@OUTPUT@'], build_by_default: false)"
+            if kind == 'executable':
+                txt += f"x = executable('prog', 'm.c', build_by_default: false)\n{fn}('t', x)\n"
+                want = ['prog']
+            elif kind == 'custom_target':
+                txt += "x = custom_target('scr', output: 'scr.sh', command: [py, '-c', 'pass', '@OUTPUT@'], build_by_default: false)\n" + f"{fn}('t', x)\n"
+                want = ['scr.sh']
+            elif kind == 'custom_target_index':
+                txt += 'x = ' + ct.format('two') + f"\n{fn}('t', x[0])\n"
+                want = ['two.sh']
+            elif kind == 'jar':
+                txt += f"x = jar('jprog', 'J.java', main_class: 'J', build_by_default: false)\n{fn}('t', x)\n"
+                want = ['jprog.jar']
+            elif kind == 'args_target':
+                txt += f"x = executable('helper', 'm.c', build_by_default: false)\n{fn}('t', py, args: ['-c', 'pass', x])\n"
+                want = ['helper']
+            elif kind == 'depends_target':
+                txt += f"x = executable('dep', 'm.c', build_by_default: false)\n{fn}('t', py, args: ['-c', 'pass'], depends: [x])\n"
+                want = ['dep']
+            else:
+                txt += 'x = ' + ct.format('arg') + f"\n{fn}('t', py, args: ['-c', 'pass', x[1]])\n"
+                want = ['arg.dat']
+            open(os.path.join(src, 'meson.build'), 'w').write(txt)
+            env = dict(os.environ, NINJA=stub_ninja(d))
+            r = subprocess.run([sys.executable, os.path.join(repo, 'meson.py'), 'setup', build, src], capture_output=True, text=True, env=env)
+            case = {'kind': kind, 'function': fn}
+            if r.returncode != 0:
+                fails.append({'case': case, 'stage': 'configure', 'detail': 'a valid project was rejected: ' + (r.stdout + r.stderr)[-300:]})
+                continue
+            nt += 1
+            try:
+                problems, prod, reach = audit(build, open(os.path.join(build, 'build.ninja'), encoding='utf-8').read())
+            except Exception as ex:
+                fails.append({'case': case, 'stage': 'manifest', 'detail': f'the manifest cannot be read: {type(ex).__name__}: {ex}'})
+                continue
+            root = f'meson-{fn}-prereq'
+            if root not in prod:
+                problems.append(f'no `{root}` target')
+            else:
+                rt = reach(root)
+                for w in want:
+                    if w not in rt:
+                        problems.append(f"{w!r}, which the {fn} runs or depends on ({kind}), is not reachable from `{root}`")
+            for pr in problems[:3]:
+                fails.append({'case': case, 'stage': 'manifest', 'detail': pr})
+        finally:
+            shutil.rmtree(d, ignore_errors=True)
+    return len(chunk), nt, fails
+
+
 def run(REG, tier, seed, jobs):
+    kinds = [(k, f) for k in KINDS for f in ('test', 'benchmark')]
+    kev, knt, kfails = pmap(_kinds_chunk, chunked(iter(kinds), 1), jobs)
+    kpart = {'name': 'C04/bounded/test-program-kinds-are-prerequisites', 'function': 'meson setup (ninja back end, stub ninja) -> build.ninja',
+             'bound': f'{len(kinds)} projects: test() and benchmark() whose program / argument / depends: is an executable, a custom target, one output of a custom target, a jar (real javac), each with build_by_default: false',
+             'evaluations': kev, 'distinct_nontrivial': knt, 'rule': 'non-trivial: configured (the jar cases need javac)', 'exhaustive': True, 'failures': kfails}
     n = 160 if tier == 'quick' else 3000
     seeds = [seed * 100003 + i for i in range(n)]
     ev, nt, fails = pmap(_graph_chunk, chunked(iter(seeds), 5), jobs)
-    return {'parts': [{'name': 'C04/bounded/generated-target-graphs-through-meson-setup', 'function': 'meson setup (ninja back end, stub ninja) -> build.ninja',
+    return {'parts': [kpart, {'name': 'C04/bounded/generated-target-graphs-through-meson-setup', 'function': 'meson setup (ninja back end, stub ninja) -> build.ninja',
                        'bound': f'{n} generated projects: <= 5 custom targets with 1-2 outputs over {NAMES!r} in the root and a subdirectory, inputs/depends on earlier targets, build_by_default / install; <= 3 compiled C targets (executable, static / shared / both libraries linking earlier libraries, generator-produced sources); tests, alias and run targets; layout mirror/flat, unity on/off, default_library shared/static/both',
                        'evaluations': ev, 'distinct_nontrivial': nt, 'rule': 'non-trivial: configured, or rejected for a collision', 'exhaustive': False, 'failures': fails}]}
 
 
-CHECKS = {'C04/bounded/generated-target-graphs-through-meson-setup': (_graph_chunk, lambda c: c['generator_seed'])}
+CHECKS = {'C04/bounded/generated-target-graphs-through-meson-setup': (_graph_chunk, lambda c: c['generator_seed']),
+          'C04/bounded/test-program-kinds-are-prerequisites': (_kinds_chunk, lambda c: (c['kind'], c['function']))}
